@@ -50,6 +50,10 @@ pub struct C16Case {
     pub filter: FilterSpec,
     pub peers: Vec<[u8; 4]>,
     pub ipv6_peer: bool,
+    /// after the one-by-one probes: rounds in which up to six peers connect within microseconds
+    /// of each other, so that the server finds several of them waiting in its accept queue
+    #[serde(default)]
+    pub burst_rounds: u8,
 }
 
 const LATTICE: [u8; 7] = [0, 1, 2, 127, 128, 254, 255];
@@ -81,8 +85,9 @@ pub fn arb_c16() -> BoxedStrategy<C16Case> {
         filter,
         vec((arb_addr(), 0u8..4, arb_octet()), 4..10),
         prop::bool::weighted(0.3),
+        prop_oneof![1 => Just(0u8), 2 => 1u8..=3],
     )
-        .prop_map(|(variant, filter, raw_peers, ipv6_peer)| {
+        .prop_map(|(variant, filter, raw_peers, ipv6_peer, burst_rounds)| {
             // peers: random ones plus neighbours of addresses the filter names (one octet off)
             let mut named: Vec<[u8; 4]> = match &filter {
                 FilterSpec::Any => vec![],
@@ -114,6 +119,7 @@ pub fn arb_c16() -> BoxedStrategy<C16Case> {
                 filter,
                 peers,
                 ipv6_peer,
+                burst_rounds,
             }
         })
         .boxed()
@@ -230,6 +236,77 @@ enum Running {
 
 pub fn check_c16(case: &C16Case) -> CaseResult {
     retry3(|slow| run_once(case, slow))
+}
+
+/// One request on a fresh connection: (bytes of the reply read, bytes of any kind received
+/// from the server, whether the TLS handshake completed)
+async fn probe_stream(stream: tokio::net::TcpStream, tls: bool, wait: Duration) -> (Vec<u8>, u64, bool) {
+    let _ = stream.set_nodelay(true);
+    let count = Arc::new(AtomicU64::new(0));
+    let mut counting = Counting {
+        inner: stream,
+        read: count.clone(),
+    };
+    let request = mbap_frame(1, 1, &[3, 0, 0, 0, 1]);
+    let want = mbap_frame(1, 1, &[3, 2, 0xBE, 0xEF]);
+    let mut got: Vec<u8> = Vec::new();
+    let mut handshake_ok = !tls;
+    if tls {
+        let connector = tokio_rustls::TlsConnector::from(peer_client_config(Offer::Both, Some("client_operator")));
+        let name = ServerName::try_from("test.com").unwrap();
+        if let Ok(Ok(mut t)) = tokio::time::timeout(wait, connector.connect(name, counting)).await {
+            handshake_ok = true;
+            if t.write_all(&request).await.is_ok() {
+                let mut buf = [0u8; 64];
+                while got.len() < want.len() {
+                    match tokio::time::timeout(wait, t.read(&mut buf)).await {
+                        Ok(Ok(n)) if n > 0 => got.extend_from_slice(&buf[..n]),
+                        _ => break,
+                    }
+                }
+            }
+        }
+    } else {
+        let _ = counting.write_all(&request).await;
+        let mut buf = [0u8; 64];
+        while got.len() < want.len() {
+            match tokio::time::timeout(wait, counting.read(&mut buf)).await {
+                Ok(Ok(n)) if n > 0 => got.extend_from_slice(&buf[..n]),
+                _ => break,
+            }
+        }
+    }
+    (got, count.load(Ordering::SeqCst), handshake_ok)
+}
+
+/// A non-blocking connect from a given source address that has been started (the SYN is out)
+/// when this returns
+fn raw_connect(src: Ipv4Addr, dest_port: u16) -> Result<std::net::TcpStream, String> {
+    use std::os::fd::FromRawFd;
+    unsafe {
+        let fd = libc::socket(libc::AF_INET, libc::SOCK_STREAM | libc::SOCK_NONBLOCK | libc::SOCK_CLOEXEC, 0);
+        if fd < 0 {
+            return Err("INFRA: socket()".to_string());
+        }
+        let mut sa: libc::sockaddr_in = std::mem::zeroed();
+        sa.sin_family = libc::AF_INET as libc::sa_family_t;
+        sa.sin_addr.s_addr = u32::from(src).to_be();
+        let len = std::mem::size_of::<libc::sockaddr_in>() as libc::socklen_t;
+        if libc::bind(fd, &sa as *const _ as *const libc::sockaddr, len) != 0 {
+            libc::close(fd);
+            return Err(format!("INFRA: bind source {} failed", src));
+        }
+        let mut da: libc::sockaddr_in = std::mem::zeroed();
+        da.sin_family = libc::AF_INET as libc::sa_family_t;
+        da.sin_port = dest_port.to_be();
+        da.sin_addr.s_addr = u32::from(Ipv4Addr::new(127, 0, 0, 1)).to_be();
+        let rc = libc::connect(fd, &da as *const _ as *const libc::sockaddr, len);
+        if rc != 0 && std::io::Error::last_os_error().raw_os_error() != Some(libc::EINPROGRESS) {
+            libc::close(fd);
+            return Err(format!("INFRA: connect from {} failed", src));
+        }
+        Ok(std::net::TcpStream::from_raw_fd(fd))
+    }
 }
 
 fn run_once(case: &C16Case, slow: u32) -> CaseResult {
@@ -364,8 +441,9 @@ fn run_once(case: &C16Case, slow: u32) -> CaseResult {
         peers.push("127.0.0.1".parse().unwrap());
     }
     peers.dedup();
-    let result: Result<(u32, u32, u32), String> = rt.block_on(async {
+    let result: Result<(u32, u32, u32, u32), String> = rt.block_on(async {
         let (mut served, mut refused, mut near) = (0u32, 0u32, 0u32);
+        let mut bursts = 0u32;
         for peer in &peers {
             let expect = model_matches(&case.filter, *peer);
             let socket = if v6 { TcpSocket::new_v6() } else { TcpSocket::new_v4() }.map_err(|e| format!("INFRA: socket {}", e))?;
@@ -376,42 +454,8 @@ fn run_once(case: &C16Case, slow: u32) -> CaseResult {
                 Ok(Err(e)) => return Err(format!("INFRA: connect from {} failed: {}", peer, e)),
                 Err(_) => return Err(format!("INFRA: connect from {} timed out", peer)),
             };
-            let _ = stream.set_nodelay(true);
-            let count = Arc::new(AtomicU64::new(0));
-            let mut counting = Counting {
-                inner: stream,
-                read: count.clone(),
-            };
-            let request = mbap_frame(1, 1, &[3, 0, 0, 0, 1]);
+            let (got, bytes, handshake_ok) = probe_stream(stream, tls, wait).await;
             let want = mbap_frame(1, 1, &[3, 2, 0xBE, 0xEF]);
-            let mut got: Vec<u8> = Vec::new();
-            let mut handshake_ok = !tls;
-            if tls {
-                let connector = tokio_rustls::TlsConnector::from(peer_client_config(Offer::Both, Some("client_operator")));
-                let name = ServerName::try_from("test.com").unwrap();
-                if let Ok(Ok(mut t)) = tokio::time::timeout(wait, connector.connect(name, counting)).await {
-                    handshake_ok = true;
-                    if t.write_all(&request).await.is_ok() {
-                        let mut buf = [0u8; 64];
-                        while got.len() < want.len() {
-                            match tokio::time::timeout(wait, t.read(&mut buf)).await {
-                                Ok(Ok(n)) if n > 0 => got.extend_from_slice(&buf[..n]),
-                                _ => break,
-                            }
-                        }
-                    }
-                }
-            } else {
-                let _ = counting.write_all(&request).await;
-                let mut buf = [0u8; 64];
-                while got.len() < want.len() {
-                    match tokio::time::timeout(wait, counting.read(&mut buf)).await {
-                        Ok(Ok(n)) if n > 0 => got.extend_from_slice(&buf[..n]),
-                        _ => break,
-                    }
-                }
-            }
-            let bytes = count.load(Ordering::SeqCst);
             let was_served = got == want;
             if expect {
                 if !was_served {
@@ -448,7 +492,63 @@ fn run_once(case: &C16Case, slow: u32) -> CaseResult {
                 }
             }
         }
-        Ok((served, refused, near))
+        // ---- bursts: several peers in the accept queue at the same time
+        if !v6 {
+            let v4: Vec<Ipv4Addr> = peers
+                .iter()
+                .filter_map(|p| match p {
+                    IpAddr::V4(a) => Some(*a),
+                    _ => None,
+                })
+                .collect();
+            let (yes, no): (Vec<Ipv4Addr>, Vec<Ipv4Addr>) = v4.iter().partition(|a| model_matches(&case.filter, IpAddr::V4(**a)));
+            for round in 0..case.burst_rounds as usize {
+                // up to six peers (the server keeps eight sessions), admitted and not admitted
+                // ones alternating, starting with one or the other
+                let mut order: Vec<Ipv4Addr> = Vec::new();
+                let (mut a, mut b) = (yes.iter().cycle().skip(round), no.iter().cycle().skip(round));
+                for k in 0..6 {
+                    let pick = if (k + round) % 2 == 0 { a.next().or_else(|| b.next()) } else { b.next().or_else(|| a.next()) };
+                    if let Some(x) = pick {
+                        order.push(*x);
+                    }
+                }
+                let mut started = Vec::new();
+                for src in &order {
+                    started.push((*src, raw_connect(*src, port)?));
+                }
+                let mixed = order.iter().any(|x| yes.contains(x)) && order.iter().any(|x| no.contains(x));
+                for (src, std_stream) in started {
+                    let stream = tokio::net::TcpStream::from_std(std_stream).map_err(|e| format!("INFRA: from_std {}", e))?;
+                    match tokio::time::timeout(wait, stream.writable()).await {
+                        Ok(Ok(())) => {}
+                        _ => return Err(format!("INFRA: burst connect from {} did not complete", src)),
+                    }
+                    let expect = model_matches(&case.filter, IpAddr::V4(src));
+                    let (got, bytes, handshake_ok) = probe_stream(stream, tls, wait).await;
+                    let want = mbap_frame(1, 1, &[3, 2, 0xBE, 0xEF]);
+                    if expect && got != want {
+                        return Err(format!(
+                            "burst of {} connections {:?}: peer {} matches filter {:?} ({:?}) but was not served (handshake ok: {}, reply {:02X?})",
+                            order.len(), order, src, filter_strings(&case.filter), case.variant, handshake_ok, got
+                        ));
+                    }
+                    if !expect && (got == want || bytes != 0) {
+                        return Err(format!(
+                            "burst of {} connections {:?}: peer {} does not match filter {:?} ({:?}) but received {} bytes from the server{}",
+                            order.len(), order, src, filter_strings(&case.filter), case.variant, bytes,
+                            if got == want { " including a Modbus reply" } else { "" }
+                        ));
+                    }
+                }
+                if mixed {
+                    bursts += 1;
+                }
+                // the sessions of this round end before the next one starts
+                tokio::time::sleep(Duration::from_millis(10)).await;
+            }
+        }
+        Ok((served, refused, near, bursts))
     });
     match running {
         Running::Rust(h, j) => {
@@ -460,7 +560,7 @@ fn run_once(case: &C16Case, slow: u32) -> CaseResult {
             drop(frt);
         }
     }
-    let (served, refused, near) = result?;
+    let (served, refused, near, bursts) = result?;
     let mut ok = CaseOk::new();
     ok.label(match case.variant {
         Variant::TcpRust => "variant:tcp_rust",
@@ -478,6 +578,9 @@ fn run_once(case: &C16Case, slow: u32) -> CaseResult {
     }
     if v6 {
         ok.label("ipv6_peer");
+    }
+    if bursts > 0 {
+        ok.label("mixed_burst");
     }
     ok.nontrivial = served > 0 && refused > 0 && near > 0;
     Ok(ok)
